@@ -234,6 +234,13 @@ Section View.
     | None => None
     end.
 
+  (* Database.get_txos: is_internal_transfer = from me, to me, stored type 'other' -- i.e. change *)
+  Definition internal_at (scripts : list bytes) (i : nat) (my_input my_output : bool) : bool :=
+    match nth_error scripts i with
+    | Some s => my_input && my_output && (row_type_linked (classify s) (linked_at scripts i) =? 0)
+    | None => false
+    end.
+
   Definition tx_view (scripts : list bytes) : list (option (option jtype * N * bool)) :=
     map (view_at scripts) (seq 0 (List.length scripts)).
 End View.
